@@ -871,10 +871,10 @@ fn gen_program(rng: &mut Rng, max_cap: usize) -> Vec<String> {
                 6..=7 => "uninit".to_string(),
                 _ => {
                     let b1 = rng.range(0, li as u64) as usize;
-                    let e1 = if rng.chance(1, 2) { None } else { Some(rng.range(b1 as u64, (lu + 1) as u64) as usize) };
+                    let e1 = if rng.chance(1, 2) { None } else { Some(rng.range(b1 as u64, (lu.max(b1) + 1) as u64) as usize) };
                     let l1 = e1.map(|e| e.min(li)).unwrap_or(li) - b1.min(li);
                     let b2 = rng.range(0, l1 as u64) as usize;
-                    let e2 = if rng.chance(1, 2) { None } else { Some(rng.range(b2 as u64, (lu + 1) as u64) as usize) };
+                    let e2 = if rng.chance(1, 2) { None } else { Some(rng.range(b2 as u64, (lu.max(b2) + 1) as u64) as usize) };
                     let f = |e: Option<usize>| e.map(|e| e.to_string()).unwrap_or("-".into());
                     format!("flat {b1} {} {b2} {}", f(e1), f(e2))
                 }
@@ -957,7 +957,9 @@ fn generate(tier: &str, rng: &mut Rng) -> Vec<Case> {
     let thorough = tier == "thorough";
     let mut cases = vec![];
     // the generator runs the real code to pick in-range parameters; hostile picks panic (caught)
-    std::panic::set_hook(Box::new(|_| {}));
+    if std::env::var_os("C10_VERBOSE").is_none() {
+        std::panic::set_hook(Box::new(|_| {}));
+    }
     gen_exhaustive(&mut cases, if thorough { 5 } else { 3 });
     let n = if thorough { 60_000 } else { 2_500 };
     for i in 0..n {
